@@ -397,17 +397,13 @@ func (gs *groupState) closeMember(m *gmember, how string) bool {
 		if how == "leave" {
 			m.cl.LeaveGroup()
 		}
-		if gs.block {
-			m.cl.CloseAllowingRebalance()
-		} else {
-			m.cl.Close()
-		}
+		s.CloseCl(m.cl, gs.block)
 		close(done)
 	}()
 	select {
 	case <-done:
-	case <-time.After(5 * time.Minute):
-		s.Violf("C13/hang/close-group-member", "Close (%s) of group member %s did not return within 5m\n%s", how, m.name, goroutineDump("kgo"))
+	case <-time.After(s.CloseBoundAtLeast(m.cl, 5*time.Minute)):
+		s.Violf("C13/hang/close-group-member", "Close (%s) of group member %s did not return within %v\n%s", how, m.name, s.CloseBoundAtLeast(m.cl, 5*time.Minute), goroutineDump("kgo"))
 		return false
 	}
 	s.Forget(m.name)
@@ -605,7 +601,7 @@ func scenGroup(s *Sim) {
 		consumedAll = true
 	}
 	if !consumedAll && gs.fencedAt == "" {
-		s.Violf(p.Prop+"/liveness/group-not-consumed", "group with stable membership did not consume everything within %v: %s", bound, gs.unconsumed(logs))
+		s.Violf(groupLivenessProp(p.Prop)+"/liveness/group-not-consumed", "group with stable membership did not consume everything within %v: %s", bound, gs.unconsumed(logs))
 	}
 	// let autocommit / commits settle, then close everyone
 	time.Sleep(time.Duration(p.Knob("settle_ms", 8000)) * time.Millisecond)
@@ -974,6 +970,11 @@ func (gs *groupState) fetchCommitted(admin *RawCli) map[tpKey]int64 {
 
 func (gs *groupState) judge(admin *RawCli, logs map[tpKey]*RefLog) {
 	s := gs.s
+	if gs.fencedAt != "" && (s.P.Prop == "C13" || s.P.Prop == "C41") {
+		// Close and data-race checks do not assume graceful members
+		s.Probe("member_fenced")
+		return
+	}
 	if gs.fencedAt != "" && s.P.Prop != "C27" {
 		s.OutOfScope("a member was fenced (" + strings.SplitN(gs.fencedAt, " ", 2)[1] + ")")
 		return
@@ -1081,4 +1082,14 @@ func (gs *groupState) judge(admin *RawCli, logs map[tpKey]*RefLog) {
 		s.Violf("C27/convergence/too-many-rebalances", "%d generations completed after membership stopped changing (generation %d -> %d)", gs.maxGen-gs.genAtStable, gs.genAtStable, gs.maxGen)
 	}
 	s.Max("generations_max", int64(gs.maxGen))
+}
+
+// groupLivenessProp: the group scenario's completeness clause belongs to the
+// group property whose emphasis generated the plan; plans generated for the
+// cross-cutting properties (C13 Close, C41 races) file it under C07.
+func groupLivenessProp(prop string) string {
+	if prop == "C13" || prop == "C41" {
+		return "C07"
+	}
+	return prop
 }
